@@ -108,3 +108,73 @@ class ViaHidden(_Hidden):
         super().__init__(**kwargs)
         LOG.append(("ViaHidden", type(self).__name__, dict(v=v, **kwargs)))
         self.v = v
+
+
+# --- dataclass-like and Protocol typed arguments (C14 enumerated family) -------------------------------------------------
+import dataclasses as _dc  # noqa: E402
+from typing import Protocol, final  # noqa: E402
+
+
+@_dc.dataclass
+class DSettings:
+    size: int = 1
+    name: str = "s"
+
+
+class Engine:
+    def __init__(self, size: int = 5, name: str = "e"):
+        LOG.append(("Engine", type(self).__name__, dict(size=size, name=name)))
+        self.size, self.name = size, name
+
+
+class Unrelated:
+    def __init__(self, size: int = 9):
+        LOG.append(("Unrelated", type(self).__name__, dict(size=size)))
+        self.size = size
+
+
+@final
+class Sealed:
+    def __init__(self, size: int = 2):
+        self.size = size
+
+
+class Model(Protocol):
+    def fit(self, x: int) -> int: ...
+
+    def predict(self, x: int) -> int: ...
+
+
+class FullModel:
+    def __init__(self, size: int = 1):
+        self.size = size
+
+    def fit(self, x: int) -> int:
+        return x
+
+    def predict(self, x: int) -> int:
+        return x
+
+
+class OnlyFit:
+    def __init__(self, size: int = 1):
+        self.size = size
+
+    def fit(self, x: int) -> int:
+        return x
+
+
+class WrongSig:
+    def __init__(self, size: int = 1):
+        self.size = size
+
+    def fit(self, y: str) -> int:
+        return 0
+
+    def predict(self, x: int) -> int:
+        return x
+
+
+class NoMethods:
+    def __init__(self, size: int = 1):
+        self.size = size
